@@ -456,6 +456,8 @@ def _inject(rng, basis, dep, lo, hi):
             col = rng.randrange(len(t.coeffs[0]))
             k = rng.randint(3, 20)
             row = rng.randrange(len(t.exps))
+            if t.coeffs[row][col] + Fraction(1, 1 << k) == 0:
+                k += 1          # -1/8 + 1/8: the copy must not become the zero function (all-zero column: not a basis function)
             for r in range(len(t.exps)):
                 t.coeffs[r].append(t.coeffs[r][col] + (Fraction(1, 1 << k) if r == row else 0))
             return dep
